@@ -36,7 +36,7 @@ Local Open Scope nat_scope.
 Theorem C06_roundtrip_statement_partial :
   forall (B : benv), (forall s t n, b_tyerr B s t n = false) ->
   forall (fixed : fixes) (F : list (str * finfo)) (fr : frs) (G : ctx) (st : fstmt),
-  sok B fixed F fr G st ->
+  sok B F fr G st ->
   forall (lvl fuel : nat) (s : pst) (r : list token),
   sz st <= fuel ->
   ST F s (toks_of_pieces (fmt_stmt fixed lvl st) ++ mk T_NL :: r) G fr ->
@@ -48,7 +48,7 @@ Print Assumptions C06_roundtrip_statement_partial.
 Theorem C06_roundtrip_block_partial :
   forall (B : benv), (forall s t n, b_tyerr B s t n = false) ->
   forall (fixed : fixes) (F : list (str * finfo)) (fr : frs) (G : ctx) (terms blank : bool) (body : list fstmt),
-  boks B fixed F fr G terms blank body ->
+  boks B F fr G terms blank body ->
   forall (lvl f fuel : nat) (els : bool) (acc : list stmt) (s : pst) (endq : list token) (tk : token) (r' : list token),
   szl body <= f -> List.length body < fuel ->
   skip1 endq = tk :: r' -> at_end els (ttype tk) = true ->
@@ -63,7 +63,7 @@ Print Assumptions C06_roundtrip_block_partial.
 Theorem C06_roundtrip_else_if_partial :
   forall (B : benv), (forall s t n, b_tyerr B s t n = false) ->
   forall (fixed : fixes) (F : list (str * finfo)) (fr : frs) (G : ctx) (cbs : list cblock) (Gout : ctx),
-  coks B fixed F fr G cbs Gout ->
+  coks B F fr G cbs Gout ->
   forall (lvl f fuel : nat) (acc : list (option tree * block)) (s : pst) (endq : list token) (tk : token) (r' : list token),
   S (szc cbs) <= f -> List.length cbs < fuel ->
   skip1 endq = tk :: r' -> at_end true (ttype tk) = true ->
@@ -76,9 +76,9 @@ Print Assumptions C06_roundtrip_else_if_partial.
 (* ---------- non-vacuity ---------- *)
 (* the side conditions are satisfiable:   while true / break / end   in a scope without variables *)
 Example C06_block_sok_example :
-  forall B fixed, sok B fixed [] [(false, false, false)] [[]] (FmtAst.SWhile (FBool true) [] [FmtAst.SBreak []] []).
+  forall B, sok B [] [(false, false, false)] [[]] (FmtAst.SWhile (FBool true) [] [FmtAst.SBreak []] []).
 Proof.
-  intros B fixed. eapply sok_while with (G1 := [[]; []]).
+  intros B. eapply sok_while with (G1 := [[]; []]).
   - left. vm_compute. repeat split; constructor.
   - discriminate.
   - reflexivity.
